@@ -3,7 +3,13 @@
 // the records), per-record Ack with a mix of accept/release/reject/renew/none, slow processing beyond the
 // acquisition lock, FlushAcks, member churn, leader moves, Close.
 //
-// op:   share <seed> <parts> <brokers> <members> <plainN> <txnProd> <txnsEach> <pollmax> <slowpct> <flushpct> <lockms> <churn 0|1> <moves 0|1>
+// op:   share <seed> <parts> <brokers> <members> <plainN> <txnProd> <txnsEach> <pollmax> <slowpct> <flushpct> <lockms> <churn 0|1> <moves 0|1> [<faultpct>]
+//
+//	faultpct > 0: that share of the ShareFetch requests carrying piggybacked acks (nothing but acks) and of the ShareAcknowledge requests is
+//	answered, instead of being handled, with a retriable acknowledge error (REQUEST_TIMED_OUT / KAFKA_STORAGE_ERROR) for every acked partition
+//	(one broker only: the session epoch the broker then lags by is compensated per member); a tenth of that share of all ShareFetch /
+//	ShareAcknowledge requests loses its connection before or after the broker handled it
+//
 // impl: cfg:<members>:<lockms> then events (m = member index, t = virtual ms since start)
 //
 //	V:m:part:off:dc          a poll of member m returned the record (dc = Record.DeliveryCount)
@@ -13,9 +19,13 @@
 //	Fs:m / Fe:m:ok|err       FlushAcks called / returned
 //	Wa:m:rid:part:first:last:type:t an AcknowledgementBatch of request rid (ShareFetch or ShareAcknowledge), in wire order
 //	Wr:m:rid:part:code       the acknowledge result for the partition in the response delivered for request rid
+//	Wx:m:rid                 the response of request rid was not delivered (connection cut after the broker handled the request)
 //	Wq:m:part:first:last:dc:t      AcquiredRecords range of a delivered ShareFetch response
 //	Cs:m / Cl:m              Close called / returned
 //	Mv:part:node             leader moved
+//	Xf:m:key:code            request of member m (API key) answered by the harness with the retriable acknowledge error code
+//	Xc:m:key:b|a             connection of a ShareFetch/ShareAcknowledge request of member m cut before / after the broker handled it
+//	                         (the broker drops the member's share session on that connection and releases what it had acquired there)
 //	Q
 package main
 
@@ -64,8 +74,18 @@ func genShare(a hx.Args) {
 		if brokers > 1 && r.Chance(40) {
 			moves = 1
 		}
-		hx.Emit("share %d %d %d %d %d %d %d %d %d %d %d %d %d", r.U64()%1000000, parts, brokers, members, plainN, txnProd, txnsEach,
-			pollmax, slowpct, flushpct, lockms, churn, moves)
+		faultpct := 0
+		if r.Chance(50) {
+			faultpct = hx.Pick(r, []int{20, 40})
+			if r.Chance(70) {
+				brokers, moves = 1, 0 // acknowledge errors are only injected with one broker
+			}
+			if flushpct == 0 {
+				flushpct = hx.Pick(r, []int{30, 100})
+			}
+		}
+		hx.Emit("share %d %d %d %d %d %d %d %d %d %d %d %d %d %d", r.U64()%1000000, parts, brokers, members, plainN, txnProd, txnsEach,
+			pollmax, slowpct, flushpct, lockms, churn, moves, faultpct)
 	}
 }
 
@@ -115,7 +135,7 @@ type shareRec struct {
 }
 
 func runShare(t *testing.T, tk []string) string {
-	if tk[0] != "share" || len(tk) != 14 {
+	if tk[0] != "share" || (len(tk) != 14 && len(tk) != 15) {
 		return "bad-op"
 	}
 	seed := uint64(hx.Atoi(tk[1]))
@@ -123,6 +143,12 @@ func runShare(t *testing.T, tk []string) string {
 	plainN, txnProd, txnsEach := int(hx.Atoi(tk[5])), int(hx.Atoi(tk[6])), int(hx.Atoi(tk[7]))
 	pollmax, slowpct, flushpct, lockms := int(hx.Atoi(tk[8])), int(hx.Atoi(tk[9])), int(hx.Atoi(tk[10])), int(hx.Atoi(tk[11]))
 	churn, moves := tk[12] == "1", tk[13] == "1"
+	faultpct := 0
+	if len(tk) == 15 {
+		faultpct = int(hx.Atoi(tk[14]))
+	}
+	var faultsOn atomic.Bool
+	faultsOn.Store(true)
 	rng := hx.NewRng(seed)
 	log := &sim.Log{}
 	net := &sim.Net{}
@@ -157,6 +183,7 @@ func runShare(t *testing.T, tk []string) string {
 	// ---- wire view: acknowledgement batches in requests, acknowledge results and acquired ranges in responses
 	var wmu sync.Mutex
 	pendingReqs := map[int][]shareReqInfo{}
+	memberIdx := map[string]int{} // share-group member id -> member index (client id), learnt from the requests
 	nextRid := 0
 	memberOf := func(clientID *string) int {
 		if clientID == nil || !strings.HasPrefix(*clientID, "m") {
@@ -179,6 +206,11 @@ func runShare(t *testing.T, tk []string) string {
 		defer wmu.Unlock()
 		nextRid++
 		info := shareReqInfo{key: key, ver: v, rid: nextRid, m: m}
+		learn := func(mid *string) {
+			if mid != nil {
+				memberIdx[*mid] = m
+			}
+		}
 		emit := func(part int32, first, last int64, types []int8) {
 			ty := int8(9)
 			if len(types) == 1 {
@@ -193,6 +225,7 @@ func runShare(t *testing.T, tk []string) string {
 				kmsg.SkipTags(&b)
 			}
 			if req.ReadFrom(b.Src) == nil {
+				learn(req.MemberID)
 				for _, rt := range req.Topics {
 					for _, rp := range rt.Partitions {
 						if len(rp.AcknowledgementBatches) > 0 {
@@ -213,6 +246,7 @@ func runShare(t *testing.T, tk []string) string {
 				kmsg.SkipTags(&b)
 			}
 			if req.ReadFrom(b.Src) == nil {
+				learn(req.MemberID)
 				for _, rt := range req.Topics {
 					for _, rp := range rt.Partitions {
 						if len(rp.AcknowledgementBatches) > 0 {
@@ -242,7 +276,11 @@ func runShare(t *testing.T, tk []string) string {
 		info := q[0]
 		pendingReqs[conn] = q[1:]
 		wmu.Unlock()
-		if !delivered || info.key != key {
+		if info.key != key {
+			return
+		}
+		if !delivered { // the broker handled the request, the client never gets the answer (connection cut)
+			log.Add("Wx:%d:%d", info.m, info.rid)
 			return
 		}
 		hasAck := func(p int32) bool {
@@ -327,6 +365,138 @@ func runShare(t *testing.T, tk []string) string {
 		return "ERR:cluster:" + err.Error()
 	}
 	defer cluster.Close()
+
+	// ---- injected faults
+	if faultpct > 0 {
+		var fmu sync.Mutex
+		frng := hx.NewRng(seed ^ 0xfa17)
+		// connection cuts
+		net.Fault = func(key int16, nth int, frame []byte) sim.Action {
+			if (key != 78 && key != 79) || !faultsOn.Load() {
+				return sim.Pass
+			}
+			fmu.Lock()
+			defer fmu.Unlock()
+			if frng.Intn(1000) >= faultpct {
+				return sim.Pass
+			}
+			cm := -1
+			if len(frame) >= 8 {
+				cb := kbin.Reader{Src: frame[8:]}
+				cm = memberOf(cb.NullableString())
+			}
+			if frng.Bool() {
+				log.Add("Xc:%d:%d:b", cm, key)
+				hx.St.Inc("share.fault.cut-before")
+				return sim.KillBefore
+			}
+			log.Add("Xc:%d:%d:a", cm, key)
+			hx.St.Inc("share.fault.cut-after")
+			return sim.DropAfter
+		}
+		// retriable acknowledge errors, answered instead of the broker. The broker never sees such a request, so its
+		// share-session epoch lags the client's by one per injection: later requests of the member are adjusted.
+		if brokers == 1 {
+			skew := map[string]int32{}
+			seenReq := map[kmsg.Request]bool{} // a parked ShareFetch passes the hook again when it is re-run
+			codes := []int16{kerr.RequestTimedOut.Code, kerr.KafkaStorageError.Code}
+			memberOfID := func(mid string) int {
+				wmu.Lock()
+				defer wmu.Unlock()
+				if m, ok := memberIdx[mid]; ok {
+					return m
+				}
+				return -1
+			}
+			cluster.Control(func(kreq kmsg.Request) (kmsg.Response, error, bool) {
+				cluster.KeepControl()
+				fmu.Lock()
+				defer fmu.Unlock()
+				switch req := kreq.(type) {
+				case *kmsg.ShareFetchRequest:
+					if seenReq[kreq] || req.MemberID == nil {
+						return nil, nil, false
+					}
+					seenReq[kreq] = true
+					mid := *req.MemberID
+					if req.ShareSessionEpoch == 0 {
+						skew[mid] = 0
+					}
+					if req.ShareSessionEpoch <= 0 {
+						return nil, nil, false
+					}
+					req.ShareSessionEpoch -= skew[mid]
+					// only requests that carry nothing but acknowledgements: a partition added to or forgotten from the
+					// session in an intercepted request would be lost for the broker
+					onlyAcks := len(req.ForgottenTopicsData) == 0 && len(req.Topics) > 0
+					for i := range req.Topics {
+						for j := range req.Topics[i].Partitions {
+							if len(req.Topics[i].Partitions[j].AcknowledgementBatches) == 0 {
+								onlyAcks = false
+							}
+						}
+					}
+					if !onlyAcks || !faultsOn.Load() || frng.Intn(100) >= faultpct {
+						return nil, nil, false
+					}
+					code := hx.Pick(frng, codes)
+					resp := req.ResponseKind().(*kmsg.ShareFetchResponse)
+					resp.AcquisitionLockTimeoutMillis = int32(lockms)
+					for i := range req.Topics {
+						rt := kmsg.NewShareFetchResponseTopic()
+						rt.TopicID = req.Topics[i].TopicID
+						for j := range req.Topics[i].Partitions {
+							rp := kmsg.NewShareFetchResponseTopicPartition()
+							rp.Partition = req.Topics[i].Partitions[j].Partition
+							rp.AcknowledgeErrorCode = code
+							rp.CurrentLeader.LeaderID = -1
+							rp.CurrentLeader.LeaderEpoch = -1
+							rt.Partitions = append(rt.Partitions, rp)
+						}
+						resp.Topics = append(resp.Topics, rt)
+					}
+					skew[mid]++
+					log.Add("Xf:%d:78:%d", memberOfID(mid), code)
+					hx.St.Inc("share.fault.retriable-ack-error.sharefetch")
+					return resp, nil, true
+				case *kmsg.ShareAcknowledgeRequest:
+					if seenReq[kreq] || req.MemberID == nil {
+						return nil, nil, false
+					}
+					seenReq[kreq] = true
+					mid := *req.MemberID
+					if req.ShareSessionEpoch <= 0 {
+						return nil, nil, false
+					}
+					req.ShareSessionEpoch -= skew[mid]
+					if len(req.Topics) == 0 || !faultsOn.Load() || frng.Intn(100) >= faultpct {
+						return nil, nil, false
+					}
+					code := hx.Pick(frng, codes)
+					resp := req.ResponseKind().(*kmsg.ShareAcknowledgeResponse)
+					resp.AcquisitionLockTimeoutMillis = int32(lockms)
+					for i := range req.Topics {
+						rt := kmsg.NewShareAcknowledgeResponseTopic()
+						rt.TopicID = req.Topics[i].TopicID
+						for j := range req.Topics[i].Partitions {
+							rp := kmsg.NewShareAcknowledgeResponseTopicPartition()
+							rp.Partition = req.Topics[i].Partitions[j].Partition
+							rp.ErrorCode = code
+							rp.CurrentLeader.LeaderID = -1
+							rp.CurrentLeader.LeaderEpoch = -1
+							rt.Partitions = append(rt.Partitions, rp)
+						}
+						resp.Topics = append(resp.Topics, rt)
+					}
+					skew[mid]++
+					log.Add("Xf:%d:79:%d", memberOfID(mid), code)
+					hx.St.Inc("share.fault.retriable-ack-error.shareacknowledge")
+					return resp, nil, true
+				}
+				return nil, nil, false
+			})
+		}
+	}
 	ctx, cancel := context.WithCancel(context.Background())
 	defer cancel()
 	common := []kgo.Opt{kgo.SeedBrokers(cluster.ListenAddrs()...), kgo.Dialer(net.Stack.DialContext),
@@ -583,6 +753,7 @@ func runShare(t *testing.T, tk []string) string {
 	time.Sleep(time.Duration(3*lockms) * time.Millisecond)
 	close(stop)
 	mwg.Wait()
+	faultsOn.Store(false)
 	close(quiet)
 	cwg.Wait()
 	cancel()
